@@ -1,12 +1,21 @@
 ------------------------------ MODULE TraceC13 ------------------------------
 (* Code -> spec for C13.  A case is one signature rendered as one kind of callable (function, *)
 (* method, classmethod, staticmethod, constructor) with every call shape that was executed:    *)
-(*   [sig, kind, calls : <<[npos, kws, py, pt]>>]                                             *)
-(*   py  (kind = "function" only, else FALSE) what CPython did: a real call of a callee that   *)
-(*       returns locals() and inspect.signature(f).bind:                                       *)
+(*   [sig, kind, crash, calls : <<[npos, kws, py, pt]>>]                                      *)
+(*   crash  "" or the exception with which pytype died on the module (then pt is empty)       *)
+(*   py  what CPython did with the same header text and the same call expression: a real call *)
+(*       of the callee (which returns / stores locals()) and inspect.signature(callee).bind:  *)
 (*       [err, bind, slots, va, kw]   -> "ORACLE" lines (the spec is wrong: machinery failure) *)
 (*   pt  what pytype reported for the call line and revealed inside the callee:                *)
-(*       [errs, rev, slots, va, vashape, kw]   -> "BAD" lines (property-level verdicts)        *)
+(*       [errs, rev, slots, va, vashape, kw, kwkey] -> "BAD" lines (property-level verdicts)   *)
+(*       errs     the classes among wrong-arg-count, wrong-keyword-args, missing-parameter,    *)
+(*                duplicate-keyword-argument reported on the call line                         *)
+(*       rev      every parameter was revealed for this call line                              *)
+(*       slots    parameter -> class names of its revealed type (members of a union)           *)
+(*       vashape  "fixed" (tuple[X, Y] / tuple[()]), else "homog" / "any"; va = per element    *)
+(*       kw       class names of the dict value type, kwkey of the dict key type ("nothing"    *)
+(*                is dropped: dict[nothing, nothing] is the empty dict)                         *)
+(* "STAT" lines carry the spec-computed classification of every call (vacuity guards).        *)
 (* Marker classes: positional actual i is an instance of P<i>, keyword actual n of K_<n>,     *)
 (* the default of parameter n of D_<n>; observations are sets of class names.                 *)
 (* "DIV" lines are informational (the error class pytype chose vs. CPython's first complaint). *)
@@ -26,6 +35,8 @@ ExpVa(s, c) == LET v == Bind(s, c).va IN [j \in DOMAIN v |-> {Marker(SrcPos(v[j]
 ExpKw(s, c) == {Marker(SrcKw(k)) : k \in Bind(s, c).kw}
 
 ObsVa(o) == [j \in DOMAIN o.va |-> ToSet(o.va[j])]
+(* the revealed **kw is a dict whose value type is exactly the markers in exp (keys: str) *)
+ObsKwIs(o, exp) == ToSet(o.kw) = exp /\ ToSet(o.kwkey) = (IF exp = {} THEN {} ELSE {"str"})
 
 -----------------------------------------------------------------------------
 (* pytype's documented deviation (known finding C13:posonly-name-as-keyword-with-kwargs):     *)
@@ -55,19 +66,22 @@ DevExplains(s, c, o) ==
        /\ o.rev
        /\ \A n \in ParamNames(s) : ToSet(o.slots[n]) = DevSlot(s, c, n)
        /\ s.va => (o.vashape = "fixed" /\ ObsVa(o) = DevVa(s, c))
-       /\ ToSet(o.kw) = DevKw(s, c)
+       /\ ObsKwIs(o, DevKw(s, c))
 
 -----------------------------------------------------------------------------
 (* verdict for one call observed on pytype: set of failing clause names *)
 PtFails(s, c, o) ==
   LET b == Bind(s, c)
       E == o.errs # <<>> IN
-  IF b.err # "none" THEN (IF E THEN {} ELSE {"missed-error"})
+  IF b.err # "none"
+    THEN (IF E THEN {}
+          ELSE IF b.err = "keyword"
+                 THEN {"missed-error:" \o k : k \in KeywordKinds(s, c)} ELSE {"missed-error:" \o b.err})
   ELSE IF E THEN {"false-error"}
   ELSE IF ~o.rev THEN {"no-reveal"}
   ELSE {"wrong-param:" \o n : n \in {m \in ParamNames(s) : ToSet(o.slots[m]) # ExpSlot(s, c, m)}}
        \cup (IF s.va /\ ~(o.vashape = "fixed" /\ ObsVa(o) = ExpVa(s, c)) THEN {"wrong-varargs"} ELSE {})
-       \cup (IF s.kw /\ ToSet(o.kw) # ExpKw(s, c) THEN {"wrong-kwargs"} ELSE {})
+       \cup (IF s.kw /\ ~ObsKwIs(o, ExpKw(s, c)) THEN {"wrong-kwargs"} ELSE {})
 
 (* informational: does the error class pytype reports match CPython's first complaint? *)
 KindAgrees(s, c, o) ==
@@ -79,10 +93,18 @@ KindAgrees(s, c, o) ==
   \/ k = "keyword" /\ "multiple" \in KeywordKinds(s, c) /\ "duplicate-keyword-argument" \in names
   \/ k = "keyword" /\ KeywordKinds(s, c) \cap {"unexpected", "posonly"} # {} /\ "wrong-keyword-args" \in names
 
-(* verdict for the CPython observation of one call (oracle discipline) *)
+(* verdict for the CPython observation of one call (oracle discipline).  The real call is the *)
+(* oracle; inspect.signature(f).bind agrees with it except for one documented deficiency of   *)
+(* Python 3.12's Signature._bind: a positional-only parameter that is not filled positionally *)
+(* and whose name is used as a keyword is rejected ("positional only, but was passed as a     *)
+(* keyword") even when the function has **kw and the parameter has a default (the real call   *)
+(* puts the keyword into **kw and uses the default).                                          *)
+InspectBinds(s, c) ==
+  /\ Bind(s, c).err = "none"
+  /\ ~\E j \in (c.npos + 1) .. s.po : PoNames[j] \in c.kws
 PyFails(s, c, p) ==
   LET b == Bind(s, c) IN
-  (IF p.bind # (b.err = "none") THEN {"bind-outcome"} ELSE {})
+  (IF p.bind # InspectBinds(s, c) THEN {"bind-outcome"} ELSE {})
   \cup (IF b.err = "keyword" THEN (IF p.err \in KeywordKinds(s, c) THEN {} ELSE {"error-kind"})
         ELSE IF p.err # b.err THEN {"error-kind"} ELSE {})
   \cup (IF b.err = "none" /\ p.err = "none"
@@ -95,14 +117,16 @@ PyFails(s, c, p) ==
 
 CaseBad(cs) ==    \* <<call index, failing clause, explained by the documented deviation?>>
   LET s == SigOf(cs) IN
+  IF cs.crash # "" THEN {<<0, "crash", FALSE>>}     \* pytype raised instead of analysing the calls
+  ELSE
   UNION {{<<k, f, DevExplains(s, CallOf(cs.calls[k]), cs.calls[k].pt)>> :
             f \in PtFails(s, CallOf(cs.calls[k]), cs.calls[k].pt)} : k \in DOMAIN cs.calls}
 CaseOracle(cs) ==
   LET s == SigOf(cs) IN
-  IF cs.kind # "function" THEN {}
-  ELSE UNION {{<<k, f>> : f \in PyFails(s, CallOf(cs.calls[k]), cs.calls[k].py)} : k \in DOMAIN cs.calls}
+  UNION {{<<k, f>> : f \in PyFails(s, CallOf(cs.calls[k]), cs.calls[k].py)} : k \in DOMAIN cs.calls}
 CaseDiv(cs) ==
   LET s == SigOf(cs) IN
+  IF cs.crash # "" THEN {} ELSE
   {k \in DOMAIN cs.calls : ~KindAgrees(s, CallOf(cs.calls[k]), cs.calls[k].pt)}
 
 TInit == i = 1 /\ TLCSet(1, FALSE)
@@ -110,7 +134,17 @@ TNext == /\ i <= Len(Cases)
          /\ i' = i + 1
          /\ (i' > Len(Cases) => TLCSet(1, TRUE))
 
+(* spec-computed classification of call k: <<error kind, |*va|, |**kw|, deviation applies>> *)
+CaseStat(cs) ==
+  LET s == SigOf(cs) IN
+  [k \in DOMAIN cs.calls |->
+     LET c == CallOf(cs.calls[k])
+         b == Bind(s, c) IN
+     <<b.err, IF b.err = "none" THEN Len(b.va) ELSE 0,
+       IF b.err = "none" THEN Cardinality(b.kw) ELSE 0, DevApplies(s, c)>>]
+
 Ok == i <= Len(Cases) =>
+        /\ PrintT(<<"STAT", ToJson([i |-> i, calls |-> CaseStat(Cases[i])])>>)
         /\ LET o == CaseOracle(Cases[i]) IN o = {} \/ PrintT(<<"ORACLE", ToJson([i |-> i, fails |-> o])>>)
         /\ LET f == CaseBad(Cases[i]) IN f = {} \/ PrintT(<<"BAD", ToJson([i |-> i, fails |-> f])>>)
         /\ LET d == CaseDiv(Cases[i]) IN d = {} \/ PrintT(<<"DIV", ToJson([i |-> i, calls |-> d])>>)
